@@ -15,7 +15,8 @@ from checks import readers_common as rc
 THEOREMS = ["C07_byte_reader", "C07_sample_reader", "C07_channel_reader", "C07_bytes_vs_samples", "C07_ser_twos_complement", "C07_channels_deinterleaved",
             "C07_nonvacuous", "C07_orig_redelivers_last_frame", "C07_channel_error_hides_frame",
             "C07_orig_hands_out_failed_frame",
-            "C07_damaged_sample_reader", "C07_damaged_byte_reader", "C07_damaged_channel_reader", "C07_damaged_nonvacuous"]
+            "C07_damaged_sample_reader", "C07_damaged_byte_reader", "C07_damaged_channel_reader", "C07_damaged_nonvacuous",
+            "C07_sample_reader_never_panics", "C07_byte_reader_never_panics", "C07_channel_reader_never_panics", "C07_never_panics_nonvacuous"]
 
 
 def run(chk):
